@@ -92,27 +92,39 @@ def closer_sweep(chk, repo, it, tier):
         progs = progs[::max(1, len(progs) // 1500)]
     cache = {}
 
-    def tree(src):
-        if src not in cache:
+    lexfn = repo.mod("lexer").functions.get("tokenise")
+    modes = [False, True] if lexfn is not None and len(
+        lexfn.args.args) >= 2 else [False]
+    # programs that exercise the one-character-variable mode: a nameless
+    # variable directly before the closers
+    progs += [op + x + cl for op, (_, cl) in [
+        (o, (None, v[1])) for o, v in info.items()] for x in ("→", "←", "1→")]
+    progs = list(dict.fromkeys(progs))
+
+    def tree(src, mode=False):
+        if (src, mode) not in cache:
             it.steps = 0
             try:
-                cache[src] = repr(list(parse(tokenise(src))))
+                cache[(src, mode)] = repr(list(parse(
+                    tokenise(src, mode) if mode else tokenise(src))))
             except PRaise as exc:
-                cache[src] = f"<raised {exc.cls_name}{exc.pargs}>"
+                cache[(src, mode)] = f"<raised {exc.cls_name}{exc.pargs}>"
             except StopIteration:
-                cache[src] = "<raised StopIteration>"
-        return cache[src]
+                cache[(src, mode)] = "<raised StopIteration>"
+        return cache[(src, mode)]
     n = 0
     bad = None
-    for p in progs:
-        k = 0
-        while k < len(p) and p[len(p) - 1 - k] in closers:
-            k += 1
-        full = tree(p)
-        for drop in range(1, k + 1):
-            n += 1
-            if tree(p[:-drop]) != full:
-                bad = bad or (p, p[:-drop], full, tree(p[:-drop]))
+    for mode in modes:
+        for p in progs:
+            k = 0
+            while k < len(p) and p[len(p) - 1 - k] in closers:
+                k += 1
+            full = tree(p, mode)
+            for drop in range(1, k + 1):
+                n += 1
+                if tree(p[:-drop], mode) != full:
+                    bad = bad or (p + (" [flag V]" if mode else ""),
+                                  p[:-drop], full, tree(p[:-drop], mode))
     chk.ob("C04.closed-and-truncated-parse-alike", "tokenise + parse",
            bad is None,
            f"{bad[0]!r} parses to {bad[2][:120]} but with the trailing "
